@@ -19,6 +19,9 @@ class VariableBoundMaxPropagator(VariableBoundPropagator):
         max_v = self.max()
   
         range_l = self.target.domain.range_l
+        if len(range_l) == 0:
+            # Nothing left to trim
+            return False
         i=len(range_l)-1
         
 #        print("Max: range_l=" + str(range_l) + " max_v=" + str(max_v))
